@@ -55,6 +55,21 @@ pub mod avx2 {
         }
         match op {
             "v2.id" => pack(&v!(0)),
+            // new() from four serial field elements given as 32 bytes or as raw (unreduced) limbs
+            "v2.new" => {
+                let mut f = vec![];
+                for i in 0..4 {
+                    match a.get(i).and_then(|x| crate::ops::field::operand(x)) {
+                        Some(x) => f.push(x),
+                        None => return Out::Rej,
+                    }
+                }
+                pack(&V4::new(&f[0], &f[1], &f[2], &f[3]))
+            }
+            "v2.splat_raw" => match a.get(0).and_then(|x| crate::ops::field::operand(x)) {
+                Some(x) => pack(&V4::splat(&x)),
+                None => Out::Rej,
+            },
             "v2.splat" => {
                 if a[0].len() != 32 {
                     return Out::Rej;
@@ -164,6 +179,22 @@ pub mod ifma {
         }
         match op {
             "vi.id" => pack_u(&u!(0)),
+            "vi.new" => {
+                let mut f = vec![];
+                for i in 0..4 {
+                    match a.get(i).and_then(|x| crate::ops::field::operand(x)) {
+                        Some(x) => f.push(x),
+                        None => return Out::Rej,
+                    }
+                }
+                // new() stores the limbs as they are; its value must survive the reducing conversion too
+                let u = U4::new(&f[0], &f[1], &f[2], &f[3]);
+                let r = u.reduce();
+                if u.split().iter().zip(r.unreduced().split().iter()).any(|(x, y)| x.as_bytes() != y.as_bytes()) {
+                    return Out::Ok(b"reduce changed the value".to_vec());
+                }
+                pack_u(&u)
+            }
             "vi.reduce" => pack_r(&u!(0).reduce()),
             "vi.diff_sum" => pack_u(&u!(0).diff_sum()),
             "vi.negate_lazy" => pack_u(&u!(0).negate_lazy()),
